@@ -8,8 +8,9 @@ process).  Process-wide mutable state is fingerprinted after every call (distinc
 transitions are reported).
 Schedules: a cooperative scheduler (sys.setprofile call events as scheduling points) runs two
 threads, one reformat_text call each, and explores ALL schedules with at most one preemption at
-every call into flowmark or marko code, and (thorough) all schedules with two preemptions at calls
-into flowmark code; each thread's result must equal its solo baseline.
+every call into flowmark or marko code, and all schedules with two preemptions at calls into flowmark
+code (quick: the first four document pairs; thorough: all); each thread's result must equal its solo
+baseline.
 """
 from __future__ import annotations
 
@@ -47,6 +48,13 @@ DOCS = [
     "```py\ncode\n```\n\n~~~\nmore\n~~~\n",                                  # 11 fences (code_info on the parse context)
     "---\ntitle: x\n---\nbody \"quoted\" text... it's here\n",                # 12 frontmatter + typography
     "He said \"hi\" and 'bye'... ok\n",                                      # 13
+    # appended later: observers that START with the construct that reads a field (nothing resets it first)
+    "| 1\\. | x |\n|---|---|\n| \\. | 2\\. |\n",                              # 14 table first, escaped periods in cells (inline-text tracker)
+    "    indented code starts\n\n1\\. then an escaped marker\n",               # 15 code block first
+    "> 1\\. quote starts with an escaped marker\n>\n> | a |\n> |---|\n> | 1\\. |\n",   # 16 quote first, table last
+    "[^1]: footnote definition starts, 1\\. x\n\ntext[^1]\n\n| t |\n|---|\n| 12 |\n",   # 17 footnote first, table with digits last
+    "~~~~python title\ncode\n~~~~\n\n* * *\n",                                # 18 tilde fence with info, ends with a rule
+    "<div>\nhtml block\n</div>\n\n[a]: http://three\n",                       # 19 html block first, ends with a definition
 ]
 OPTS = [dict(width=88, semantic=False, cleanups=False), dict(width=20, semantic=True, cleanups=True, smartquotes=True, ellipses=True),
         dict(width=10, semantic=False, cleanups=False, list_spacing="loose"), dict(width=40, plaintext=True)]
@@ -185,7 +193,17 @@ PAIRS = [
      ("# **Head**\n\n1. one\n\n2. two\n", dict(width=20, semantic=False, cleanups=True, list_spacing="loose"))),
     (("| a | b |\n|---|---|\n| c d | e |\n\n1\\. para\n", dict(width=88, semantic=False, cleanups=False)),
      ("x[^1]\n\n[^1]: note\n\n```py\ncode\n```\n", dict(width=8, semantic=False, cleanups=False))),
+    # appended later: both sides use the SAME construct with different parameters (a race on shared state needs two writers)
+    (("~~~~python\ncode a\n~~~~\n\nDone.\n", dict(width=88, semantic=False, cleanups=False)),
+     ("```js\ncode b\n```\n\nEnd.\n", dict(width=88, semantic=False, cleanups=False))),
+    (("| a | b |\n|:--|--:|\n| c | 1\\. |\n", dict(width=88, semantic=False, cleanups=False)),
+     ("| x |\n|---|\n| y z |\n\n2\\. p\n", dict(width=88, semantic=True, cleanups=False))),
+    (("<div>\nblock\n</div>\n\nHead\n====\n\nt[^n]\n\n[^n]: note n\n", dict(width=12, semantic=False, cleanups=True)),
+     ("<!-- c -->\n\n## **Sub**\n\nu[^m]\n\n[^m]: note m\n", dict(width=12, semantic=False, cleanups=True))),
+    (("---\nk: v\n---\n> - \"q\" one... two\n", dict(width=16, semantic=True, cleanups=True, smartquotes=True, ellipses=True)),
+     ("---\nz: w\n---\n1. > 'r' three... four\n", dict(width=16, semantic=True, cleanups=True, smartquotes=True, ellipses=True))),
 ]
+P2_QUICK = 4   # two-preemption schedules: the first four pairs in the quick tier, every pair in the thorough tier
 
 
 def flt_all(fn):
@@ -227,7 +245,7 @@ class Schedules(Space):
             for first in (0, 1):
                 for k in range(self.npoints[(pi, first, "all")]):
                     yield (pi, "p1", first, k, 0)
-            if True:  # two preemptions at flowmark-function granularity (both tiers)
+            if pi < P2_QUICK or self.tier == "thorough":  # two preemptions at flowmark-function granularity
                 for first in (0, 1):
                     na, nb = self.npoints[(pi, first, "fm")], self.npoints[(pi, 1 - first, "fm")]
                     for k1 in range(na):
